@@ -555,7 +555,7 @@ class StateSampler:
         return ["%s%r" % (prefix, t) for t in sorted(self.seen)]
 
 
-def stuck(sim, cyc, limit=20000):
+def stuck(sim, cyc, limit=60000):
     """Progress watchdog shared by the frontend checks: True when the event log (every handshake of every agent is logged) has not grown
     for `limit` cycles.  It only shortens runs that would otherwise spin to their cycle cap; the verdict (hang) is the same."""
     w = getattr(sim, "_wd", None)
